@@ -822,6 +822,12 @@ def part_equality(ck: Check, n: int):
     from bqskit.qis.graph import CouplingGraph
     from harness import c16_gates
     rng = ck.rng
+    sim = circ_sim.Sim(circ_sim.Alphabet(), rng)
+    mlines: list[tuple[str, str, dict]] = []     # (line, real verdict, replay)
+
+    def block_txt(cg):
+        return (','.join(map(str, cg.radixes)) + ' '
+                + ('+'.join(sim.op_text(o) for o in cg._circuit) or '-'))
     # ---- CouplingGraph: every listing of one edge set is the same key
     for i in range(n):
         nq = rng.randint(2, 12)
@@ -844,6 +850,11 @@ def part_equality(ck: Check, n: int):
         for how, h in variants:
             bad = [] if (g == h and h == g) else ['==']
             bad += key_roundtrip(g, h)
+            if how == 'relisted':
+                flat = lambda gr: ','.join(f'{a},{b}' for a, b in gr)  # noqa
+                mlines.append((f'graphhash {nq} {flat(g)} | {flat(h)}',
+                               str(hash(g) == hash(h)).lower(),
+                               {'edges': edges, 'num_qudits': nq}))
             if bad:
                 ck.violation(
                     'eq-hash:CouplingGraph:set-order' if 'hash' in bad
@@ -916,6 +927,8 @@ def part_equality(ck: Check, n: int):
             if int(np.prod(rad)) <= 64 and not same_unitary(
                     gate_unitary(g, pt), gate_unitary(h, pt), 1e-10):
                 bad.append('unitary')
+            mlines.append((f'eqblock {block_txt(g)} | {block_txt(h)}',
+                           str(bool(g == h)).lower(), replay))
             if bad:
                 ck.violation(f'eq-hash:CircuitGate:{how}', 'CircuitGates of '
                              f'the same operation sequence ({how}) differ '
@@ -924,6 +937,8 @@ def part_equality(ck: Check, n: int):
         for how, oc in (('prefix', shorter), ('extension', longer),
                         ('empty', empty)):
             h = CircuitGate(oc)
+            mlines.append((f'eqblock {block_txt(g)} | {block_txt(h)}',
+                           str(bool(g == h)).lower(), replay))
             if g == h or h == g or not (g != h):
                 sig = 'eq-hash:CircuitGate:prefix'
                 ck.violation(sig, WHAT[sig], {**replay, 'other': how,
@@ -945,6 +960,8 @@ def part_equality(ck: Check, n: int):
                         ('other-params', same if c.num_params else None)):
             if oc is None:
                 continue
+            mlines.append((f'eqcirc {sim.circ_text(c)} | {sim.circ_text(oc)}',
+                           str(bool(c == oc)).lower(), replay))
             if c == oc or oc == c or not (c != oc):
                 sig = ('eq-unsound:Circuit:num_qudits'
                        if how in ('wider', 'other-radix')
@@ -953,6 +970,21 @@ def part_equality(ck: Check, n: int):
                              + how + ') compare equal',
                              {**replay, 'other': how,
                               'other_circuit': repr(oc)[:300]})
+        mlines.append((f'eqcirc {sim.circ_text(c)} | {sim.circ_text(pc)}',
+                       str(bool(c == pc)).lower(), replay))
+    # the same verdicts from the model of the fixed __eq__/__hash__
+    outs = ck.driver('pickle', [m[0] for m in mlines])
+    for (line, real, replay), mo in zip(mlines, outs):
+        ck.bump('traces_validated_against_impl')
+        if mo == 'bad-op':
+            raise RuntimeError('driver rejected ' + line[:300])
+        if mo != real:
+            kind = line.split()[0]
+            ck.violation(f'{kind}-correspondence', f'{kind}: implementation '
+                         f'says {real}, model of __eq__/__hash__ says {mo}',
+                         {**replay, 'line': line, 'impl': real, 'model': mo,
+                          'broken': 'correspondence pickle ' + kind},
+                         found_input=False)
 
 
 # =========================================================== sharing (part G)
